@@ -341,7 +341,9 @@ def r4_cleanup(repo):
         # must come after every copytree of the non-crash path in the loop body
         later = all(ct.lineno < c.lineno for ct in _copytrees(o)
                     if pid_loop is not None and is_within(ct, pid_loop))
-        ok = reg == want and inner[:1] == [pid_loop] and in_body and later
+        # once per pid: the innermost loop around it is the loop over the pids (an `else:` branch of that loop's body is
+        # still that loop); when: exactly on the rows of `want` (the region); after the copies: line order
+        ok = reg == want and inner[:1] == [pid_loop] and pid_loop is not None and later
         msg = ("rmtree(<test_dir>/tmp/<pid>) must run once per pid, unconditionally for every pid the tool did not "
                "fail on (no crash), after the test case was saved: guards=%s directly-in-pid-loop=%s after-copies=%s"
                % (o.gtext(c), in_body, later))
